@@ -710,6 +710,9 @@ func Run(seed int64, n int, outDir string) error {
 			return err
 		}
 	}
+	if err := r.scenarioBoundary(ctx, 2); err != nil {
+		return err
+	}
 	spellOrders := 2
 	if thorough {
 		spellOrders = 6
@@ -799,6 +802,8 @@ func Run(seed int64, n int, outDir string) error {
 			} else {
 				r.commit(ctx, p, o)
 			}
+		case w.R.Chance(1, 9) && r.boundaryGenerated(ctx, p):
+			// done: price parked next to a bound of a position, then that position acted on
 		case w.R.Chance(1, 10) && r.closeSharedBound(ctx, p):
 			// done: closed a position sharing exactly one bound and traded across the shared tick
 		case w.R.Chance(1, 9) && len(w.C02Positions(ctx, p)) > 0 && len(r.sharedOneBound(ctx, p)) == 0:
